@@ -23,6 +23,7 @@ BUILDS = {
     "index_safe": dict(features=["index-positions", "prohibit-unsafe"], no_default=False),
     "utf16": dict(features=["utf16"], no_default=False),
     "pattern": dict(features=["pattern"], no_default=False),
+    "pattern_index": dict(features=["pattern", "index-positions"], no_default=False),
     "alloc": dict(features=["alloc", "backend-pikevm"], no_default=True),
 }
 
@@ -30,6 +31,9 @@ ANNOT_RE = re.compile(r"^\s*// @verif\s+(.*)$")
 KV_RE = re.compile(r'(\w+)=("([^"]*)"|\S+)')
 FN_RE = re.compile(r"^\s*(?:pub(?:\([^)]*\))?\s+)?fn\s+(\w+)")
 
+
+# replay files of reported violations (VERIF_REPLAY_DIR: used when evaluating seeded changes)
+REPLAYS = os.environ.get("VERIF_REPLAY_DIR", os.path.join(VERIF, "replays"))
 
 def log(*a):
     print(*a, flush=True)
@@ -123,7 +127,7 @@ def kf_const(fid):
 # --------------------------------------------------------------------------------------
 
 
-def filtered_copy(src, dest, selected_fns, known, extra_tail=""):
+def filtered_copy(src, dest, selected_fns, known, extra_tail="", tail_sub=None):
     """Copy a harness file keeping #[kani::proof] only on the selected harness fns.  A nested
     `verif_cfg` module with the known-finding switches is prepended after inner attributes."""
     with open(src) as f:
@@ -153,6 +157,13 @@ def filtered_copy(src, dest, selected_fns, known, extra_tail=""):
             out.append(ln)
     if not inserted:
         out += cfg
+    if extra_tail and tail_sub:
+        # the harness lives in a nested module: the playback test must sit next to it
+        for k, ln in enumerate(out):
+            if re.match(r"^\s*(pub\s+)?mod\s+%s\s*\{" % re.escape(tail_sub), ln):
+                out[k + 1:k + 1] = extra_tail.splitlines()
+                extra_tail = ""
+                break
     with open(dest, "w") as f:
         f.write("\n".join(out) + "\n" + extra_tail)
 
@@ -179,10 +190,20 @@ def concrete_playback(ctx, h, build):
         except subprocess.TimeoutExpired:
             return dict(reproduced=False, test_src=None, native_out="playback generation timed out")
     text = open(logp, errors="replace").read()
-    m = PLAYBACK_RE.search(text)
-    if not m:
+    tests = [t.strip() for t in PLAYBACK_RE.findall(text)]
+    if not tests:
         return dict(reproduced=False, test_src=None, native_out="no playback test in output; see " + logp)
-    test_src = m.group(1).strip() + "\n"
+    # Kani prints one test per failed check AND one per satisfied cover; the cover witnesses are ordinary
+    # passing runs, so keep only the tests of failed checks when there are any.
+    seen, uniq = set(), []
+    for t in tests:
+        nm = re.search(r"fn (kani_concrete_playback_\w+)", t)
+        if nm and nm.group(1) not in seen:
+            seen.add(nm.group(1))
+            uniq.append(t)
+    tests = uniq
+    failing = [t for t in tests if "Check for `cover`" not in t]
+    test_src = "\n\n".join(failing or tests) + "\n"
     rep = native_playback(ctx["scratch"], h, build, test_src, ctx["known"])
     rep["test_src"] = test_src
     return rep
@@ -192,14 +213,14 @@ def native_playback(scratch, h, build, test_src, known, release=False):
     """Build a mirror whose harness file carries the playback unit test and run it with
     `cargo kani playback`.  The test calls the harness function with the solver's concrete values, so
     the real code (current /repo tree) runs natively; a panic = reproduced."""
-    tname = re.search(r"fn (kani_concrete_playback_\w+)", test_src)
-    if not tname:
+    tnames = re.findall(r"fn (kani_concrete_playback_\w+)", test_src)
+    if not tnames:
         return dict(reproduced=False, native_out="malformed playback test")
-    tname = tname.group(1)
+    tname = "kani_concrete_playback_"
     pdir = os.path.join(scratch, "playback_%s_%s%s" % (build, h["fn"], "_rel" if release else ""))
     os.makedirs(pdir, exist_ok=True)
     hcopy = os.path.join(pdir, os.path.basename(h["file"]))
-    filtered_copy(h["file"], hcopy, {h["fn"]}, known, extra_tail="\n" + test_src)
+    filtered_copy(h["file"], hcopy, {h["fn"]}, known, extra_tail="\n" + test_src, tail_sub=h.get("sub"))
     mod = module_of(h["file"])
     mdir = os.path.join(pdir, "mirror")
     mirror.make_mirror(mdir, {mod: hcopy}, playback_hook=True)
@@ -220,9 +241,9 @@ def native_playback(scratch, h, build, test_src, known, release=False):
         rc = p.returncode
     except subprocess.TimeoutExpired:
         out, rc = "native playback timed out", 124
-    ran = re.search(r"test \S*%s \.\.\. (\w+)" % tname, out)
-    reproduced = bool(ran and ran.group(1) == "FAILED")
-    ok = bool(ran and ran.group(1) == "ok")
+    ran = re.findall(r"test \S*kani_concrete_playback_\w+ \.\.\. (\w+)", out)
+    reproduced = "FAILED" in ran
+    ok = bool(ran) and all(r == "ok" for r in ran)
     shutil.rmtree(os.path.join(pdir, "target"), ignore_errors=True)
     return dict(reproduced=reproduced, passed_natively=ok, native_rc=rc, native_out=out[-3000:])
 
@@ -390,8 +411,8 @@ def run_check(pid, tier, only=None, keep=False, parallel=None):
             if r["class"] == "fail":
                 rep = concrete_playback(ctx, h, h["build"])
                 r["replay"] = {k: v for k, v in rep.items() if k != "test_src"}
-                os.makedirs(os.path.join(VERIF, "replays"), exist_ok=True)
-                rpath = os.path.join(VERIF, "replays", "%s-%s-%s.json" % (pid, h["build"], h["fn"]))
+                os.makedirs(REPLAYS, exist_ok=True)
+                rpath = os.path.join(REPLAYS, "%s-%s-%s.json" % (pid, h["build"], h["fn"]))
                 case = dict(property=pid, harness=h["fn"], harness_file=os.path.relpath(h["file"], VERIF)
                             if h["file"].startswith(VERIF) else h["file"],
                             build=h["build"], failed_checks=r["failed_checks"][:20], playback_test=rep.get("test_src"),
@@ -412,10 +433,10 @@ def run_check(pid, tier, only=None, keep=False, parallel=None):
                 inconclusive.append("%s: %s (log %s)" % (h["fn"], r["class"], r["log"]))
         native_violations = []
         for nv in (gen_info or {}).get("native_violations", []):
-            os.makedirs(os.path.join(VERIF, "replays"), exist_ok=True)
+            os.makedirs(REPLAYS, exist_ok=True)
             import hashlib
             tag = hashlib.sha1(json.dumps(nv, sort_keys=True, default=str).encode()).hexdigest()[:10]
-            rpath = os.path.join(VERIF, "replays", "%s-native-%s.json" % (pid, tag))
+            rpath = os.path.join(REPLAYS, "%s-native-%s.json" % (pid, tag))
             rec = dict(nv)
             rec.update(kind="native", property=pid, repo_digest=mirror.repo_src_digest())
             with open(rpath, "w") as f:
@@ -449,8 +470,8 @@ def run_check(pid, tier, only=None, keep=False, parallel=None):
                             known_lines.append("KNOWN-FINDING: property=%s %s" % (pid, known_all[kf[0]]["what"]))
                             r["known_finding"] = kf[0]
                             continue
-                        os.makedirs(os.path.join(VERIF, "replays"), exist_ok=True)
-                        rpath = os.path.join(VERIF, "replays", "%s-smt-%s-%s.json" % (pid, r["mode"], r["case"]))
+                        os.makedirs(REPLAYS, exist_ok=True)
+                        rpath = os.path.join(REPLAYS, "%s-smt-%s-%s.json" % (pid, r["mode"], r["case"]))
                         with open(rpath, "w") as f:
                             json.dump(dict(kind="smt", property=pid, mode=r["mode"], case=r["case"], pattern=r["src"],
                                            flags=r["flags"], haystack=r["cex"]["text"], start=r["cex"]["start"],
@@ -568,8 +589,11 @@ def write_evidence(pid, tier, seed, spec, results, build_info, gen_info, wall, i
         wall_s=round(wall, 1),
         violations=violations,
     )
-    os.makedirs(os.path.join(VERIF, "evidence"), exist_ok=True)
-    with open(os.path.join(VERIF, "evidence", pid + ".json"), "w") as f:
+    # VERIF_EVIDENCE_DIR: only for evaluating seeded changes (tools/eval_seed*.sh), so that a run against a
+    # deliberately broken tree never overwrites the evidence of /repo itself.
+    evdir = os.environ.get("VERIF_EVIDENCE_DIR", os.path.join(VERIF, "evidence"))
+    os.makedirs(evdir, exist_ok=True)
+    with open(os.path.join(evdir, pid + ".json"), "w") as f:
         json.dump(ev, f, indent=1)
 
 
